@@ -16,11 +16,14 @@ def plan(prop, tier, models):
             elif mid.startswith("c15-timestamps"):
                 b = [(3, 30)] if threads <= 4 else [(2, 30)]
             elif mid.startswith("c15-protocol"):
-                b = [(2, 30)]
+                # scripts of length 5 are 70 % of the family's cost: bound 1 here, 2-3 in the thorough tier
+                b = [(1, 30)] if "/len5/" in mid else [(2, 30)]
             elif mid.startswith("c15-frontier"):
-                b = [(2, 30)]
+                # the 5-thread models do not finish bound 2 within the quick budget (reported as
+                # incomplete before); bound 1 completes, bound 2-3 is the thorough tier
+                b = [(2, 30)] if threads <= 4 else [(1, 30)]
             else:  # c16
-                b = [(2, 35)]
+                b = [(2, 50)]
         else:
             if mid.startswith("c17-wait"):
                 b = [(None, 600)]
@@ -31,7 +34,7 @@ def plan(prop, tier, models):
             elif mid.startswith("c15-protocol"):
                 b = [(3, 300)]
             elif mid.startswith("c15-frontier"):
-                b = [(3, 900)]
+                b = [(3, 900)] if threads <= 4 else [(2, 900)]
             else:
                 b = [(3, 1200)]
         out[mid] = b
